@@ -13,7 +13,7 @@
     channel generation [gen] (it grows at every RoundLifecycle.Reset) and no Stop in between.
     Reset does NOT reset the step: between a round entrance and its response the machine still carries
     the step of the round it left ([C08_step_is_stale_while_awaiting]). *)
-From Coq Require Import List NArith.
+From Coq Require Import List NArith Bool.
 From GV Require Import Base.Ints Gen.Math Gen.StepSM Model.StateMachine Proofs.SMInv Proofs.SMInvStep Proofs.SMRel
   Proofs.SMTheorems Proofs.SMInvActs Proofs.SMWitness Proofs.SMOnce Proofs.SMOnceRel Proofs.SMOnceStep Proofs.SMOnceHist
   Proofs.SMOnceSign Proofs.SMOncePH Proofs.SMOnceCons Proofs.SMOnceFin Proofs.SMOnceAfter.
